@@ -103,6 +103,15 @@ CHECKS = {
          "rotation entry or a lost |cos| is a polynomial disequality the solver finds for all angles at once; the invariance consequences follow on paper.",
     design="3/C05", engine="symx+llsym",
     technique="symbolic execution of clang LLVM IR of the generated 2-D kernels under the real Python driver on z3 proxies; layered congruence lemmas (QF_NRA with circle axioms, UF applications abstracted) + accumulator obligations; counterexamples replayed on the real DLL against the model's own Iqac/Iqabc evaluated at independently rotated q"),
+ "C06": dict(
+    text="For every magnetic-capable compiled model the real Python driver runs on z3 proxies (the real convert_magnetism converts the polar angles and decides the "
+         "kernel by forking on the symbolic magnitudes) and the LLVM IR of the real generated <model>_Imagnetic kernel (set_spin_weights, mag_sld, the cross-section "
+         "loop) is executed symbolically with polarisation parameters, magnetisation of one or more SLDs, all other parameters and (qx,qy) symbolic. Per path z3 shows "
+         "that the result is w_dd I(rho-P.Mperp) + w_uu I(rho+P.Mperp) + w_du[I(e1.Mperp)+I(-e2.Mperp)] + w_ud[I(e1.Mperp)+I(e2.Mperp)] with Mperp = M - qhat(qhat.M), "
+         "(P,e1,e2) from the polar angles and the documented clipped/normalised weights; all magnitudes zero selects the ordinary kernel; also under a size or jitter "
+         "distribution. Right level: channel weights/signs/axes are polynomial identities in symbolic inputs which the solver covers for all values.",
+    design="3/C06", engine="symx+llsym",
+    technique="symbolic execution of clang LLVM IR of the generated magnetic kernels under the real Python driver on z3 proxies; argument-alignment lemmas (QF_NRA, UF abstracted, circle/sqrt axioms) + accumulator obligations; counterexamples replayed on the real DLL against the documented channel formula evaluated with the real non-magnetic kernel"),
 }
 
 NOT_YET = "check not built yet in this round (planned in DESIGN.md section 3); not claimed"
